@@ -110,6 +110,11 @@ var RichPatterns = []Pat{
 	{"/x.{ext: /json|xml/}", []string{"/x.json", "/x.xml"}, []string{"/x.yaml", "/x."}},
 	{"/s/{year: /[0-9]{4}/}/{slug}", []string{"/s/2024/hello", "/s/1999/a-b"}, []string{"/s/24/hello", "/s/2024"}},
 	{"/static/{file}", []string{"/static/app.js"}, nil},
+	{"/v/{id}/settings", []string{"/v/7/settings", "/v/8/settings"}, nil},
+	{"/v/{id}/profile", []string{"/v/7/profile"}, nil},
+	{"/v/{id}/posts", []string{"/v/7/posts", "/v/9/posts"}, nil},
+	{"/v/{id}/billing", []string{"/v/7/billing"}, nil},
+	{"/v/{id}/{page}", []string{"/v/7/other", "/v/7/settingsx"}, []string{"/v/7"}},
 }
 
 // SimplePatterns are pairwise disjoint, so the admitted route is known by
@@ -175,6 +180,7 @@ type Profile struct {
 	MinTasks, MaxTasks int
 	MinReqs, MaxReqs   int
 	HotPm              int // a request reuses the run's hot path
+	HotPaths           int // size of the run's set of hot paths (0: one)
 	NearPm, HostilePm  int
 	Methods            []string
 	MethodW            []int
@@ -318,6 +324,9 @@ func GenSetup(g *tape.Stream, p *Profile) *Setup {
 		}
 		if pat.P == "/h" || g.Chance(p.HeadersPm) {
 			rs.Headers = []string{"X-Gate", "^open$"}
+			if g.Intn(2) == 1 { // several constraints: all of them must hold
+				rs.Headers = []string{"X-Gate", "^open$", "X-Key", "^k[0-9]$", "X-Third", ""}
+			}
 		}
 		routes = append(routes, rs)
 		if (rs.Method == "GET" || rs.Method == "POST") && g.Chance(p.TwinMethodPm) {
